@@ -31,6 +31,12 @@ KERNELS = [
     ("streams.py", "strahler_order", {"idxs_ds": "idx", "seq": "seq", "mask": "omask"}),
     ("core.py", "fillnodata_downstream", {"idxs_ds": "idx", "seq": "seq", "data": "z", "nodata": "Z", "how": "str"}),
     ("dem.py", "height_above_nearest_drain", {"idxs_ds": "idx", "seq": "seq", "drain": "b", "elevtn": "z"}),
+    ("subgrid.py", "ucat_area", {"idxs_out": "idx", "idxs_ds": "idx", "seq": "seq", "area": "z", "mv": "mv"}),
+    ("basins.py", "subbasins_area", {"idxs_ds": "idx", "seq": "seq", "idxs_us_main": "idx", "uparea": "z", "area_min": "Z"}),
+    ("basins.py", "subbasins_streamorder", {"idxs_ds": "idx", "seq": "seq", "strord": "z", "mask": "omask", "min_sto": "Z"}),
+    # the step length gis_utils.distance(idx0, idx_ds, ncol, latlon, transform) is an abstract function `steplen`
+    ("streams.py", "stream_distance", {"idxs_ds": "idx", "seq": "seq", "ncol": "skip", "mask": "omask", "real_length": "boolp",
+                                        "latlon": "skip", "transform": "skip"}),
 ]
 # string-valued options are integers in the models (the harness uses the same table)
 STRINGS = {"how": {"min": 0, "max": 1, "sum": 2}}
@@ -52,7 +58,7 @@ class K:
             t = self.ty.get(e.id)
             if t is None:
                 fail(e, self.fn, f"untyped name {e.id}")
-            return {"idx": "idxarr", "z": "zarr", "b": "barr", "Z": "Z", "nat": "nat", "mv": "mv", "omask": "omask", "bool": "bool", "str": "str"}[t]
+            return {"idx": "idxarr", "z": "zarr", "b": "barr", "l": "natlist", "Z": "Z", "nat": "nat", "mv": "mv", "omask": "omask", "bool": "bool", "boolp": "bool", "str": "str", "skip": "skip"}[t]
         if isinstance(e, ast.Constant) and isinstance(e.value, bool):
             return "bool"
         if isinstance(e, ast.Constant) and isinstance(e.value, str):
@@ -70,7 +76,28 @@ class K:
             return "Z"
         if isinstance(e, ast.Call) and isinstance(e.func, ast.Name) and e.func.id in ("min", "max"):
             return "Z"
+        if (isinstance(e, ast.Call) and isinstance(e.func, ast.Name) and e.func.id == "len" and len(e.args) == 1
+                and isinstance(e.args[0], ast.Name) and self.ty.get(e.args[0].id) == "l"):
+            return "Z"
+        if self.is_distance(e):
+            return "Z"
         fail(e, self.fn, f"unsupported expression {ast.dump(e)[:60]}")
+
+    def is_distance(self, e):
+        """gis_utils.distance(a, b, ncol, latlon, transform) with the kernel's own ncol / latlon / transform"""
+        return (isinstance(e, ast.Call) and isinstance(e.func, ast.Attribute) and e.func.attr == "distance"
+                and isinstance(e.func.value, ast.Name) and e.func.value.id == "gis_utils" and len(e.args) == 5 and not e.keywords
+                and all(isinstance(x, ast.Name) for x in e.args) and [x.id for x in e.args[2:]] == ["ncol", "latlon", "transform"]
+                and self.typ(e.args[0]) == "nat" and self.typ(e.args[1]) == "nat")
+
+    def index(self, e):
+        """an array index: a cell index / loop counter, or integer arithmetic on a stored label (`lab - 1`)"""
+        t = self.typ(e)
+        if t == "nat":
+            return self.ex(e)
+        if t == "Z" and isinstance(e, ast.BinOp):
+            return f"(Z.to_nat {self.ex(e)})"
+        fail(e, self.fn, "array index is not a cell index")
 
     def ex(self, e):
         if isinstance(e, ast.Name):
@@ -90,9 +117,7 @@ class K:
             arr = e.value
             if not isinstance(arr, ast.Name):
                 fail(e, self.fn, "subscript of an expression")
-            i = self.ex(e.slice)
-            if self.typ(e.slice) != "nat":
-                fail(e, self.fn, "array index is not a cell index")
+            i = self.index(e.slice)
             t = self.typ(arr)
             if t == "idxarr":
                 return f"(nth {i} {arr.id} NMV)"
@@ -112,6 +137,14 @@ class K:
                         and isinstance(a.comparators[0], ast.Constant) and a.comparators[0].value is None
                         and isinstance(b, ast.Subscript) and isinstance(b.value, ast.Name) and b.value.id == a.left.id):
                     return f"(mget {a.left.id} {self.ex(b.slice)})"
+            # `m is not None and m[i]`  ->  the mask is given and set at i
+            if isinstance(e.op, ast.And) and len(e.values) == 2:
+                a, b = e.values
+                if (isinstance(a, ast.Compare) and len(a.ops) == 1 and isinstance(a.ops[0], ast.IsNot)
+                        and isinstance(a.left, ast.Name) and self.ty.get(a.left.id) == "omask"
+                        and isinstance(a.comparators[0], ast.Constant) and a.comparators[0].value is None
+                        and isinstance(b, ast.Subscript) and isinstance(b.value, ast.Name) and b.value.id == a.left.id):
+                    return f"(match {a.left.id} with None => false | Some m_ => nth {self.ex(b.slice)} m_ false end)"
             # `m is not None and not m[i]`  ->  negb (mget m i)
             if isinstance(e.op, ast.And) and len(e.values) == 2:
                 a, b = e.values
@@ -121,6 +154,17 @@ class K:
                         and isinstance(b, ast.UnaryOp) and isinstance(b.op, ast.Not) and isinstance(b.operand, ast.Subscript)
                         and isinstance(b.operand.value, ast.Name) and b.operand.value.id == a.left.id):
                     return f"(negb (mget {a.left.id} {self.ex(b.operand.slice)}))"
+            if isinstance(e.op, ast.And) and len(e.values) == 2:
+                a, b = e.values
+                if (isinstance(a, ast.Compare) and len(a.ops) == 1 and isinstance(a.ops[0], ast.IsNot)
+                        and isinstance(a.left, ast.Name) and self.ty.get(a.left.id) == "omask"
+                        and isinstance(a.comparators[0], ast.Constant) and a.comparators[0].value is None
+                        and isinstance(b, ast.Compare) and len(b.ops) == 1 and isinstance(b.ops[0], ast.Is)
+                        and isinstance(b.left, ast.Subscript) and isinstance(b.left.value, ast.Name) and b.left.value.id == a.left.id
+                        and isinstance(b.comparators[0], ast.Constant) and b.comparators[0].value is False):
+                    # `m[i] is False` compares the identity of a NumPy boolean with the Python constant: never true in
+                    # interpreted (reference) mode, whatever the mask holds
+                    return "false"
             op = " && " if isinstance(e.op, ast.And) else " || "
             for v in e.values:
                 if self.typ(v) != "bool":
@@ -168,11 +212,21 @@ class K:
                 return f"({self.ex(a)} {sym} {self.ex(b)})%Z"
             fail(e, self.fn, "comparison of booleans")
         if isinstance(e, ast.BinOp) and isinstance(e.op, (ast.Add, ast.Sub)):
-            if self.typ(e.left) != "Z" or self.typ(e.right) != "Z":
+            tl, tr = self.typ(e.left), self.typ(e.right)
+            if {tl, tr} - {"Z", "nat"} or (tl, tr) == ("nat", "nat"):
                 fail(e, self.fn, "arithmetic on non-Z operands")
-            return f"({self.ex(e.left)} {'+' if isinstance(e.op, ast.Add) else '-'} {self.ex(e.right)})%Z"
+            # a loop counter in integer arithmetic (`i + 1`)
+            l = self.ex(e.left) if tl == "Z" else f"(Z.of_nat {self.ex(e.left)})"
+            r = self.ex(e.right) if tr == "Z" else f"(Z.of_nat {self.ex(e.right)})"
+            return f"({l} {'+' if isinstance(e.op, ast.Add) else '-'} {r})%Z"
         if isinstance(e, ast.Call) and isinstance(e.func, ast.Name) and e.func.id in ("min", "max") and len(e.args) == 2 and not e.keywords:
             return f"(Z.{e.func.id} {self.ex(e.args[0])} {self.ex(e.args[1])})"
+        if (isinstance(e, ast.Call) and isinstance(e.func, ast.Name) and e.func.id == "len" and len(e.args) == 1
+                and isinstance(e.args[0], ast.Name) and self.ty.get(e.args[0].id) == "l"):
+            return f"(Z.of_nat (length {e.args[0].id}))"
+        if self.is_distance(e):
+            self.uses_steplen = True
+            return f"(steplen {self.ex(e.args[0])} {self.ex(e.args[1])})"
         fail(e, self.fn, f"unsupported expression {ast.dump(e)[:60]}")
 
     # ---------------------------------------------------------------- statements
@@ -185,13 +239,11 @@ class K:
         arr = tgt.value.id
         if arr not in self.state:
             fail(node, self.fn, f"store into {arr}, which is not a local array")
-        if self.typ(tgt.slice) != "nat":
-            fail(node, self.fn, "store index is not a cell index")
         t = self.typ(tgt.value)
         tv = self.typ(val) if not isinstance(val, str) else None
         if tv is not None and ((t == "zarr" and tv != "Z") or (t == "idxarr" and tv != "nat") or (t == "barr" and tv != "bool")):
             fail(node, self.fn, "element type mismatch in store")
-        return arr, self.ex(tgt.slice)
+        return arr, self.index(tgt.slice)
 
     def pure_stores(self, body):
         for s in body:
@@ -228,6 +280,10 @@ class K:
             if isinstance(t, ast.Name):
                 if t.id in self.ty and t.id not in self.locals:
                     fail(s, self.fn, f"assignment to parameter {t.id}")
+                if t.id in [c for c, _ in getattr(self, "consts", [])] and getattr(self, "inv", 0) == 0:
+                    # a scalar set before the loop may only be re-bound under a loop-invariant switch (a boolean parameter):
+                    # otherwise its value would be carried from one iteration to the next
+                    fail(s, self.fn, f"loop-carried scalar {t.id}")
                 ty = self.typ(s.value)
                 if ty not in ("nat", "Z", "bool"):
                     fail(s, self.fn, "unsupported local value")
@@ -236,11 +292,17 @@ class K:
                 return f"{pad}let {t.id} := {self.ex(s.value)} in\n" + self.stmts(rest, ind)
             arr, i = self.store(t, s.value, s)
             return f"{pad}let {arr} := upd {arr} {i} {self.ex(s.value)} in\n" + self.stmts(rest, ind)
-        if isinstance(s, ast.AugAssign) and isinstance(s.op, ast.Add):
+        if isinstance(s, ast.AugAssign) and isinstance(s.op, (ast.Add, ast.Sub)):
             arr, i = self.store(s.target, s.value, s)
             if self.typ(s.target.value) != "zarr":
                 fail(s, self.fn, "+= on a non-Z array")
-            return f"{pad}let {arr} := upd {arr} {i} ((nth {i} {arr} 0%Z) + {self.ex(s.value)})%Z in\n" + self.stmts(rest, ind)
+            op = "+" if isinstance(s.op, ast.Add) else "-"
+            return f"{pad}let {arr} := upd {arr} {i} ((nth {i} {arr} 0%Z) {op} {self.ex(s.value)})%Z in\n" + self.stmts(rest, ind)
+        if (isinstance(s, ast.Expr) and isinstance(s.value, ast.Call) and isinstance(s.value.func, ast.Attribute) and s.value.func.attr == "append"
+                and isinstance(s.value.func.value, ast.Name) and self.ty.get(s.value.func.value.id) == "l" and s.value.func.value.id in self.state
+                and len(s.value.args) == 1 and self.typ(s.value.args[0]) == "nat"):
+            lst = s.value.func.value.id
+            return f"{pad}let {lst} := {lst} ++ [{self.ex(s.value.args[0])}] in\n" + self.stmts(rest, ind)
         if isinstance(s, ast.If):
             if self.typ(s.test) != "bool":
                 fail(s, self.fn, "non-boolean condition")
@@ -251,16 +313,19 @@ class K:
                 pat = self.tuple() if len(self.state) == 1 else "'" + self.tuple()
                 return f"{pad}let {pat} := if {self.ex(s.test)} then\n{a}\n{pad}else\n{b} in\n" + self.stmts(rest, ind)
             saved = (dict(self.ty), set(self.locals))
+            switch = isinstance(s.test, ast.Name) and dict(KERNELS_T[(self.fn, self.fd.name)]).get(s.test.id) == "boolp"
+            self.inv = getattr(self, "inv", 0) + (1 if switch else 0)
             a = self.stmts(list(s.body) + rest, ind + 2)
             self.ty, self.locals = dict(saved[0]), set(saved[1])
             b = self.stmts(list(s.orelse) + rest, ind + 2)
+            self.inv -= 1 if switch else 0
             self.ty, self.locals = saved
             return f"{pad}if {self.ex(s.test)} then\n{a}\n{pad}else\n{b}"
         fail(s, self.fn, f"unsupported statement {type(s).__name__}")
 
     # ---------------------------------------------------------------- the kernel
     def size_of(self, e):
-        if isinstance(e, ast.Attribute) and e.attr == "size" and isinstance(e.value, ast.Name) and self.ty.get(e.value.id) in ("idx", "z", "b"):
+        if isinstance(e, ast.Attribute) and e.attr in ("size", "shape") and isinstance(e.value, ast.Name) and self.ty.get(e.value.id) in ("idx", "z", "b"):
             return f"(length {e.value.id})"
         fail(e, self.fn, "unsupported size expression")
 
@@ -274,8 +339,9 @@ class K:
         if body and isinstance(body[0], ast.Expr) and isinstance(getattr(body[0], "value", None), ast.Constant):
             body = body[1:]
         idxarr = [a for a in args if self.ty[a] == "idx"]
-        if not idxarr or idxarr[0] != "idxs_ds":
-            fail(fd, self.fn, "the network index array idxs_ds is expected first")
+        if "idxs_ds" not in idxarr:
+            fail(fd, self.fn, "the network index array idxs_ds is expected")
+        idxarr = ["idxs_ds"] + [a for a in idxarr if a != "idxs_ds"]
         self.derived = []
         self.locals = set()
         loop = None
@@ -283,6 +349,22 @@ class K:
             if isinstance(s, ast.For):
                 loop = pos
                 break
+            if (isinstance(s, ast.If) and not s.orelse and len(s.body) == 1 and isinstance(s.test, ast.Compare) and len(s.test.ops) == 1
+                    and isinstance(s.test.ops[0], ast.Lt) and isinstance(s.test.left, ast.Name) and self.ty.get(s.test.left.id) == "Z"
+                    and isinstance(s.test.comparators[0], ast.Constant) and s.test.comparators[0].value == 0
+                    and isinstance(s.body[0], ast.Assign) and len(s.body[0].targets) == 1 and isinstance(s.body[0].targets[0], ast.Name)
+                    and s.body[0].targets[0].id == s.test.left.id):
+                # if p < 0: p = int(arr.max()) + p      (arr: a non-negative integer array, so its maximum is >= 0)
+                v = s.body[0].value
+                pn = s.test.left.id
+                if not (isinstance(v, ast.BinOp) and isinstance(v.op, ast.Add) and isinstance(v.right, ast.Name) and v.right.id == pn
+                        and isinstance(v.left, ast.Call) and isinstance(v.left.func, ast.Name) and v.left.func.id == "int" and len(v.left.args) == 1
+                        and isinstance(v.left.args[0], ast.Call) and isinstance(v.left.args[0].func, ast.Attribute) and v.left.args[0].func.attr == "max"
+                        and isinstance(v.left.args[0].func.value, ast.Name) and self.ty.get(v.left.args[0].func.value.id) == "z" and not v.left.args[0].args):
+                    fail(s, self.fn, "unsupported prologue statement")
+                arrn = v.left.args[0].func.value.id
+                self.rebind = getattr(self, "rebind", []) + [(pn, f"(if ({pn} <? 0)%Z then (fold_right Z.max 0%Z {arrn} + {pn})%Z else {pn})")]
+                continue
             if isinstance(s, ast.Assert):
                 # `assert how in [...]`: the accepted strings must be exactly the table of the option
                 t = s.test
@@ -303,6 +385,12 @@ class K:
             if not (isinstance(s, ast.Assign) and len(s.targets) == 1 and isinstance(s.targets[0], ast.Name)):
                 fail(s, self.fn, "unsupported prologue statement")
             name, v = s.targets[0].id, s.value
+            if isinstance(v, (ast.Constant, ast.UnaryOp)) and name not in self.ty and self.typ(v) == "Z":
+                # a scalar constant used by the loop (it may be re-bound inside the loop body)
+                self.ty[name] = "Z"
+                self.locals.add(name)
+                self.consts = getattr(self, "consts", []) + [(name, self.ex(v))]
+                continue
             if (isinstance(v, ast.Compare) and len(v.ops) == 1 and isinstance(v.ops[0], ast.NotEq) and isinstance(v.left, ast.Name)
                     and self.ty.get(v.left.id) == "z" and isinstance(v.comparators[0], ast.Name) and self.ty.get(v.comparators[0].id) == "Z"):
                 # flags = data != nodata
@@ -330,6 +418,12 @@ class K:
                 self.ty[name] = rty
                 self.derived.append((name, f"(gen_{v.func.attr} {' '.join(order)})"))
                 continue
+            elif isinstance(v, ast.List) and not v.elts:
+                self.ty[name] = "l"
+                self.init[name] = "(@nil nat)"
+            elif gen.is_np_call(v, ("zeros",)) and len(v.args) >= 1:
+                self.ty[name] = "z"
+                self.init[name] = f"(repeat 0%Z {self.size_of(v.args[0])})"
             elif gen.is_np_call(v, ("full",)) and len(v.args) >= 2:
                 n = self.size_of(v.args[0])
                 val = v.args[1]
@@ -344,68 +438,125 @@ class K:
             else:
                 fail(s, self.fn, "unsupported prologue statement")
             self.state.append(name)
-        if loop is None or loop != len(body) - 2:
-            fail(fd, self.fn, "expected prologue, one for loop, return")
-        f, ret = body[loop], body[loop + 1]
-        if f.orelse or not isinstance(f.target, ast.Name):
-            fail(f, self.fn, "unsupported loop header")
-        it = f.iter
-        if isinstance(it, ast.Name) and self.ty.get(it.id) == "seq":
-            dom = RENAME.get(it.id, it.id)
-        elif (isinstance(it, ast.Subscript) and isinstance(it.value, ast.Name) and self.ty.get(it.value.id) == "seq"
-              and isinstance(it.slice, ast.Slice) and it.slice.lower is None and it.slice.upper is None
-              and isinstance(it.slice.step, ast.UnaryOp) and isinstance(it.slice.step.op, ast.USub)
-              and isinstance(it.slice.step.operand, ast.Constant) and it.slice.step.operand.value == 1):
-            dom = f"(rev {RENAME.get(it.value.id, it.value.id)})"
-        elif isinstance(it, ast.Call) and isinstance(it.func, ast.Name) and it.func.id == "range" and len(it.args) == 1:
-            dom = f"(seq 0 {self.size_of(it.args[0])})"
-        else:
-            fail(f, self.fn, "unsupported loop domain")
-        self.ty[f.target.id] = "nat"
-        self.locals.add(f.target.id)
-        if not (isinstance(ret, ast.Return) and isinstance(ret.value, ast.Name) and ret.value.id in self.state):
-            fail(ret, self.fn, "unsupported return")
+        if loop is None:
+            fail(fd, self.fn, "expected prologue, for loops, return")
+        loops, ret = body[loop:-1], body[-1]
+        alias = {}
+        while loops and isinstance(loops[-1], ast.Assign):
+            # x = np.array(<list state>, dtype=...): the same list as an array
+            q = loops.pop()
+            if not (len(q.targets) == 1 and isinstance(q.targets[0], ast.Name) and gen.is_np_call(q.value, ("array",)) and q.value.args
+                    and isinstance(q.value.args[0], ast.Name) and self.ty.get(q.value.args[0].id) == "l"):
+                fail(q, self.fn, "unsupported epilogue statement")
+            alias[q.targets[0].id] = q.value.args[0].id
+        if not loops or not all(isinstance(f, ast.For) for f in loops):
+            fail(fd, self.fn, "expected prologue, for loops, return")
         params = []
         for a in args:
-            t = self.ty[a] if a not in self.state else None
             t0 = dict(KERNELS_T[(self.fn, fd.name)])[a]
-            if t0 in ("mv",):
+            if t0 in ("mv", "skip"):
                 continue
-            params.append(f"({RENAME.get(a, a)} : {dict(idx='list nat', z='list Z', b='list bool', Z='Z', str='Z', seq='list nat', omask='option (list bool)')[t0]})")
+            params.append(f"({RENAME.get(a, a)} : {dict(idx='list nat', z='list Z', b='list bool', Z='Z', str='Z', seq='list nat', omask='option (list bool)', boolp='bool')[t0]})")
         dparams = [f"({nm} : list Z)" for nm, _ in self.derived]
         name = f"gen_{fd.name}"
         pat = self.tuple() if len(self.state) == 1 else "'" + self.tuple()
-        stname = "st" if len(self.state) > 1 else self.state[0]
-        bodytxt = self.stmts(list(f.body), 4)
-        sttype = " * ".join({"idx": "list nat", "z": "list Z", "b": "list bool"}[self.ty[a]] for a in self.state)
+        ctype = {"idx": "list nat", "z": "list Z", "b": "list bool", "l": "list nat"}
+        sttype = " * ".join(ctype[self.ty[a]] for a in self.state)
+        pnames = " ".join(RENAME.get(a, a) for a in args if dict(KERNELS_T[(self.fn, fd.name)])[a] not in ("mv", "skip"))
+        dn = "".join(" " + nm for nm, _ in self.derived)
         out = [f"(* {self.fn}: {fd.name} *)"]
-        out.append(f"Definition {name}_step {' '.join(params + dparams)} (st : {sttype}) ({f.target.id} : nat) : {sttype} :=")
-        out.append(f"  let NMV := length {idxarr[0]} in")
-        if len(self.state) > 1:
-            out.append(f"  let {pat} := st in")
-        else:
-            out.append(f"  let {self.state[0]} := st in")
-        out.append(bodytxt + ".")
+        doms, bodies = [], []
+        base_ty, base_locals = dict(self.ty), set(self.locals)
+        for li, f in enumerate(loops):
+            self.ty, self.locals = dict(base_ty), set(base_locals)
+            if f.orelse or not isinstance(f.target, ast.Name):
+                fail(f, self.fn, "unsupported loop header")
+            it = f.iter
+            if isinstance(it, ast.Name) and self.ty.get(it.id) == "seq":
+                dom = RENAME.get(it.id, it.id)
+            elif (isinstance(it, ast.Subscript) and isinstance(it.value, ast.Name) and self.ty.get(it.value.id) == "seq"
+                  and isinstance(it.slice, ast.Slice) and it.slice.lower is None and it.slice.upper is None
+                  and isinstance(it.slice.step, ast.UnaryOp) and isinstance(it.slice.step.op, ast.USub)
+                  and isinstance(it.slice.step.operand, ast.Constant) and it.slice.step.operand.value == 1):
+                dom = f"(rev {RENAME.get(it.value.id, it.value.id)})"
+            elif isinstance(it, ast.Call) and isinstance(it.func, ast.Name) and it.func.id == "range" and len(it.args) == 1:
+                dom = f"(seq 0 {self.size_of(it.args[0])})"
+            else:
+                fail(f, self.fn, "unsupported loop domain")
+            doms.append(dom)
+            self.ty[f.target.id] = "nat"
+            self.locals.add(f.target.id)
+            bodies.append((f.target.id, self.stmts(list(f.body), 4)))
+        if getattr(self, "uses_steplen", False):
+            params = params + ["(steplen : nat -> nat -> Z)"]
+            pnames = pnames + " steplen"
+        consts = getattr(self, "consts", [])
+        for li, (tgt, bodytxt) in enumerate(bodies):
+            suffix = "" if len(loops) == 1 else str(li + 1)
+            out.append(f"Definition {name}_step{suffix} {' '.join(params + dparams)} (st : {sttype}) ({tgt} : nat) : {sttype} :=")
+            out.append(f"  let NMV := length {idxarr[0]} in")
+            for nm, expr in consts:
+                out.append(f"  let {nm} := {expr} in")
+            if len(self.state) > 1:
+                out.append(f"  let {pat} := st in")
+            else:
+                out.append(f"  let {self.state[0]} := st in")
+            out.append(bodytxt + ".")
+        self.ty = base_ty
         init = self.init[self.state[0]] if len(self.state) == 1 else "(" + ", ".join(self.init[a] for a in self.state) + ")"
-        pnames = " ".join(RENAME.get(a, a) for a in args if dict(KERNELS_T[(self.fn, fd.name)])[a] != "mv")
-        proj = ret.value.id
-        if len(self.state) == 1:
-            res = "r"
+        # the result: one array of the state or all of them in order
+        if isinstance(ret, ast.Return) and isinstance(ret.value, ast.Name) and ret.value.id in self.state:
+            proj = ret.value.id
+            rtype = ctype[self.ty[proj]]
+            if len(self.state) == 1:
+                res = "r"
+            else:
+                k = self.state.index(proj)
+                res = "r"
+                nn = len(self.state)      # nested pairs: (a, b, c) = ((a, b), c)
+                for _ in range(nn - 1 - k):
+                    res = f"(fst {res})"
+                if k > 0:
+                    res = f"(snd {res})"
+        elif (isinstance(ret, ast.Return) and isinstance(ret.value, ast.Tuple)
+              and [getattr(e, "id", None) for e in ret.value.elts] == self.state):
+            rtype, res = sttype, "r"
+        elif (isinstance(ret, ast.Return) and isinstance(ret.value, ast.Tuple) and len(ret.value.elts) == 2
+              and isinstance(ret.value.elts[1], ast.Name) and alias.get(ret.value.elts[1].id) in self.state
+              and isinstance(ret.value.elts[0], ast.Call) and isinstance(ret.value.elts[0].func, ast.Attribute)
+              and ret.value.elts[0].func.attr == "fillnodata_upstream" and isinstance(ret.value.elts[0].func.value, ast.Name)
+              and ret.value.elts[0].func.value.id == "core" and len(ret.value.elts[0].args) == 4 and not ret.value.elts[0].keywords):
+            # return core.fillnodata_upstream(idxs_ds, seq, <array of the state>, <constant>), <the list as an array>
+            c = ret.value.elts[0]
+            a0, a1, a2, a3 = c.args
+            if not (isinstance(a0, ast.Name) and a0.id == "idxs_ds" and isinstance(a1, ast.Name) and self.ty.get(a1.id) == "seq"
+                    and isinstance(a2, ast.Name) and a2.id in self.state and self.ty[a2.id] == "z" and self.typ(a3) == "Z"):
+                fail(ret, self.fn, "unsupported return")
+
+            def proj(nm):
+                k, r_, nn = self.state.index(nm), "r", len(self.state)
+                for _ in range(nn - 1 - k):
+                    r_ = f"(fst {r_})"
+                return f"(snd {r_})" if k > 0 else r_
+            rtype = "list Z * list nat"
+            res = f"(gen_fillnodata_upstream idxs_ds {RENAME.get(a1.id, a1.id)} {proj(a2.id)} {self.ex(a3)}, {proj(alias[ret.value.elts[1].id])})"
         else:
-            k = self.state.index(proj)
-            res = "r"
-            # nested pairs: (a, b, c) = ((a, b), c)
-            nn = len(self.state)
-            for _ in range(nn - 1 - k):
-                res = f"(fst {res})"
-            if k > 0:
-                res = f"(snd {res})"
-        out.append(f"Definition {name} {' '.join(params)} : {dict(idx='list nat', z='list Z', b='list bool')[self.ty[proj]]} :=")
+            fail(ret, self.fn, "unsupported return")
+        out.append(f"Definition {name} {' '.join(params)} : {rtype} :=")
         out.append(f"  let NMV := length {idxarr[0]} in")
         for nm, expr in self.derived:
             out.append(f"  let {nm} := {expr} in")
-        dn = "".join(" " + nm for nm, _ in self.derived)
-        out.append(f"  let r := fold_left ({name}_step {pnames}{dn}) {dom} {init} in {res}.")
+        for nm, expr in getattr(self, "rebind", []):
+            out.append(f"  let {nm} := {expr} in")
+        for nm, expr in consts:
+            out.append(f"  let {nm} := {expr} in")
+        cur = init
+        for li, dom in enumerate(doms):
+            suffix = "" if len(loops) == 1 else str(li + 1)
+            last = li == len(doms) - 1
+            var = "r" if last else f"r{li + 1}"
+            out.append(f"  let {var} := fold_left ({name}_step{suffix} {pnames}{dn}) {dom} {cur} in" + (f" {res}." if last else ""))
+            cur = var
         return "\n".join(out)
 
 
